@@ -33,7 +33,7 @@ Theorem C09_new : forall w,
   else cv_new w = None.
 Proof. exact cv_new_spec. Qed.
 Print Assumptions C09_new.
-Theorem C09_with_capacity : forall c capa w, (wok w = true -> capa * w < W) ->
+Theorem C09_with_capacity : forall c capa w, (wok w = true -> capa * w + 64 < W) ->
   cv_with_capacity c capa w = Ok (cv_new w).
 Proof. exact cv_with_capacity_spec. Qed.
 Print Assumptions C09_with_capacity.
